@@ -28,7 +28,14 @@ pub tracked struct VpFs {
     pub ghost last_manifest_read: Option<Seq<char>>,
     /// history: what the last `fs::read(blob)` delivered (None = io error / absent)
     pub ghost last_blob_read: Option<Seq<u8>>,
+    /// history: number of manifest write attempts (atomic_write on manifest.toml) so far
+    pub ghost manifest_writes: nat,
+    /// history: number of manifest serializations / manifest writes that returned Err so far
+    pub ghost io_failures: nat,
 }
+
+/// the save-related history counters are untouched
+pub open spec fn hist_same(a: VpFs, b: VpFs) -> bool { a.manifest_writes == b.manifest_writes && a.io_failures == b.io_failures }
 
 pub open spec fn fs_same_files(a: VpFs, b: VpFs) -> bool { a.manifest == b.manifest && a.blobs == b.blobs }
 
@@ -99,7 +106,7 @@ pub open spec fn open_spec(t: Option<Seq<char>>, key: Seq<char>) -> (IMap<Seq<ch
 
 /// postcondition of open / try_open / open_with_lock for the returned store `s`
 pub open spec fn open_post(old_fs: VpFs, fin: VpFs, s: Store, key: Seq<char>) -> bool {
-    &&& fs_same_files(fin, old_fs)
+    &&& fs_same_files(fin, old_fs) && hist_same(fin, old_fs)
     &&& fin.last_manifest_read is Some ==> fin.last_manifest_read == old_fs.manifest
     &&& sv(s).next == IMap::<Seq<char>, EntryV>::empty()
     &&& sv(s).saved.schema == SCHEMA_VERSION
@@ -137,7 +144,7 @@ pub open spec fn opt_bytes_eq(r: Option<Vec<u8>>, e: Option<Seq<u8>>) -> bool {
 /// postcondition of a blob read at store-relative path `rel`: the files on disk are untouched; if the read delivered bytes
 /// they are the bytes of that file and the result is their decoding, otherwise (io error / absent) the result is a miss
 pub open spec fn read_post(old_fs: VpFs, fin: VpFs, r: Option<Vec<u8>>, rel: Seq<char>) -> bool {
-    &&& fs_same_files(fin, old_fs) && fin.last_manifest_read == old_fs.last_manifest_read
+    &&& fs_same_files(fin, old_fs) && fin.last_manifest_read == old_fs.last_manifest_read && hist_same(fin, old_fs)
     &&& opt_bytes_eq(r, match fin.last_blob_read { Some(d) => blob_decode(d), None => None })
     &&& fin.last_blob_read is Some ==> old_fs.blobs.contains_key(rel) && old_fs.blobs[rel] == fin.last_blob_read.unwrap()
 }
@@ -420,15 +427,19 @@ fn vp_to_path_buf(root: &Path) -> PathBuf { unimplemented!() }
 #[verifier::external_body]
 fn vp_read_manifest(root: &Path, Tracked(fs): Tracked<&mut VpFs>) -> (r: Option<Manifest>)
     ensures
-        fs_same_files(*final(fs), *old(fs)), final(fs).last_blob_read == old(fs).last_blob_read,
+        fs_same_files(*final(fs), *old(fs)), final(fs).last_blob_read == old(fs).last_blob_read, hist_same(*final(fs), *old(fs)),
         final(fs).last_manifest_read is Some ==> final(fs).last_manifest_read == old(fs).manifest,
         omv(r) == parse_opt(final(fs).last_manifest_read),
 { unimplemented!() }
 
 /// O14: `toml::to_string(&manifest)`. ASSUMED (listed): what serde/toml write, serde/toml read back: parse(serialize(m)) == m.
 #[verifier::external_body]
-fn vp_toml_to_string(m: &Manifest) -> (r: Result<String, VpErr>)
-    ensures r matches Ok(t) ==> toml_parse(t@) == Some(mv(*m)),
+fn vp_toml_to_string(m: &Manifest, Tracked(fs): Tracked<&mut VpFs>) -> (r: Result<String, VpErr>)
+    ensures
+        r matches Ok(t) ==> toml_parse(t@) == Some(mv(*m)),
+        fs_same_files(*final(fs), *old(fs)), final(fs).last_manifest_read == old(fs).last_manifest_read, final(fs).last_blob_read == old(fs).last_blob_read,
+        final(fs).manifest_writes == old(fs).manifest_writes,
+        final(fs).io_failures == old(fs).io_failures + (if r is Err { 1nat } else { 0nat }),
 { unimplemented!() }
 
 /// O14: `veryl_path::atomic_write(root.join(MANIFEST), text.as_bytes())`: temp file + rename, so either the file holds the
@@ -437,6 +448,8 @@ fn vp_toml_to_string(m: &Manifest) -> (r: Result<String, VpErr>)
 fn vp_atomic_write_manifest(root: &PathBuf, text: &String, Tracked(fs): Tracked<&mut VpFs>) -> (r: Result<(), VpErr>)
     ensures
         final(fs).blobs == old(fs).blobs, final(fs).last_manifest_read == old(fs).last_manifest_read, final(fs).last_blob_read == old(fs).last_blob_read,
+        final(fs).manifest_writes == old(fs).manifest_writes + 1,
+        final(fs).io_failures == old(fs).io_failures + (if r is Err { 1nat } else { 0nat }),
         r is Ok ==> final(fs).manifest == Some(text@),
         r is Err ==> final(fs).manifest == old(fs).manifest,
 { unimplemented!() }
@@ -470,6 +483,7 @@ fn vp_exists(path: &PathBuf, Tracked(fs): Tracked<&mut VpFs>) -> (r: bool)
 fn vp_atomic_write_blob(path: &PathBuf, data: &Vec<u8>, Tracked(fs): Tracked<&mut VpFs>) -> (r: Result<(), VpErr>)
     ensures
         final(fs).manifest == old(fs).manifest, final(fs).last_manifest_read == old(fs).last_manifest_read, final(fs).last_blob_read == old(fs).last_blob_read,
+        hist_same(*final(fs), *old(fs)),
         r is Ok ==> final(fs).blobs == old(fs).blobs.insert(path_rel(*path), data@),
         r is Err ==> final(fs).blobs == old(fs).blobs,
 { unimplemented!() }
@@ -478,7 +492,7 @@ fn vp_atomic_write_blob(path: &PathBuf, data: &Vec<u8>, Tracked(fs): Tracked<&mu
 #[verifier::external_body]
 fn vp_fs_read(root: &PathBuf, rel: &str, Tracked(fs): Tracked<&mut VpFs>) -> (r: Option<Vec<u8>>)
     ensures
-        fs_same_files(*final(fs), *old(fs)), final(fs).last_manifest_read == old(fs).last_manifest_read,
+        fs_same_files(*final(fs), *old(fs)), final(fs).last_manifest_read == old(fs).last_manifest_read, hist_same(*final(fs), *old(fs)),
         obv(r) == final(fs).last_blob_read,
         r is Some ==> old(fs).blobs.contains_key(rel@) && old(fs).blobs[rel@] == r.unwrap()@,
 { unimplemented!() }
@@ -533,12 +547,14 @@ fn vp_set_contains(set: &VpPathSet, path: &PathBuf) -> (r: bool)
 fn vp_remove_file(path: &PathBuf, Tracked(fs): Tracked<&mut VpFs>)
     ensures
         final(fs).manifest == old(fs).manifest, final(fs).last_manifest_read == old(fs).last_manifest_read, final(fs).last_blob_read == old(fs).last_blob_read,
+        hist_same(*final(fs), *old(fs)),
         final(fs).blobs == old(fs).blobs || final(fs).blobs == old(fs).blobs.remove(path_rel(*path)),
 { unimplemented!() }
 
 /// gc's effect on the disk: files are only removed, never changed or created; nothing the manifest `files` references is removed
 pub open spec fn gc_post(old_fs: VpFs, fin: VpFs, files: IMap<Seq<char>, EntryV>) -> bool {
     &&& fin.manifest == old_fs.manifest && fin.last_manifest_read == old_fs.last_manifest_read && fin.last_blob_read == old_fs.last_blob_read
+    &&& hist_same(fin, old_fs)
     &&& forall|p: Seq<char>| #[trigger] fin.blobs.contains_key(p) ==> old_fs.blobs.contains_key(p) && fin.blobs[p] == old_fs.blobs[p]
     &&& forall|p: Seq<char>| #[trigger] old_fs.blobs.contains_key(p) && is_referenced(files, p) ==> fin.blobs.contains_key(p)
 }
